@@ -1,10 +1,10 @@
 ------------------------------ MODULE MCOutput ------------------------------
 EXTENDS Output
 ProgramsMC == { <<"tx">>, <<"close">>, <<"close", "close">>, <<"tx", "tx">>, <<"close", "tx">>,
-                <<"tx", "close">>, <<"serve", "rx">> }
+                <<"tx", "close">>, <<"serve", "rx">>, <<"txc">>, <<"txc", "close">>, <<"txc", "tx">> }
 RECURSIVE SeqsUpTo(_, _)
 SeqsUpTo(S, n) == IF n = 0 THEN {<<>>} ELSE SeqsUpTo(S, n - 1) \cup {Append(s, x) : s \in SeqsUpTo(S, n - 1), x \in S}
 PeerScriptsMC == SeqsUpTo(Items, 2)
-ProgramsQuick == { <<"tx">>, <<"close">>, <<"close", "tx">>, <<"tx", "close">>, <<"serve", "rx">> }
+ProgramsQuick == { <<"tx">>, <<"close">>, <<"close", "tx">>, <<"tx", "close">>, <<"serve", "rx">>, <<"txc", "close">> }
 PeerScriptsQuick == SeqsUpTo(Items \ {"stanza"}, 1) \cup {<<"stanza_reply", "close">>, <<"stanza", "stanza_herr">>}
 =============================================================================
